@@ -16,26 +16,27 @@ type OSProfile struct {
 	EmptyProbeEntry  bool
 	PhaseObjectDrift bool
 	// SliceDrift lets the intruder delete ObjectSlices (sliced scenarios).
-	SliceDrift   bool
-	MaxSets      int
-	Preexisting  int    // chance (x/10) that a pool object pre-exists in a generated ownership state
-	Lifecycle    bool   // pause / archive / delete / orphan-delete user operations
-	Violations   bool   // preflight violators
-	Delegation   bool   // phases with class default (and hosted-cluster when cfg.Hosted)
-	Intruder     string // "", "boundary", "granular"
-	Finalizers   bool   // intruder may put blocking finalizers on managed objects
-	ForceCluster int    // 0 draw, 1 namespaced, 2 cluster-scoped
-	LateCreate   bool   // some sets are created by user operations during the run
-	NeverReady   bool   // some workloads never become ready / stay stale
-	NoForge      bool   // third parties never forge ownership by one of the generated sets
-	CompletePrev bool   // every set names all earlier sets as previous (no contested objects)
-	Sliced       int    // 0 inline; 1 move phase objects into hand-made ObjectSlices
-	OldestFirst  bool   // archive/delete operations only hit the oldest set still alive (no re-create race among older revisions)
-	DelegateMask int    // bit i set: phase i of every set is delegated to class "default" (no choices consumed)
-	NoOrphan     bool   // no orphan-propagation deletes among the lifecycle operations
-	CondMappings bool   // some listed objects carry conditionMappings (C19)
-	AllLate      bool   // every set but the first is created by its own user operation
-	DriftOnly    bool   // the intruder only edits managed fields, deletes, and blocks deletion (C10)
+	SliceDrift    bool
+	MaxSets       int
+	Preexisting   int    // chance (x/10) that a pool object pre-exists in a generated ownership state
+	Lifecycle     bool   // pause / archive / delete / orphan-delete user operations
+	Violations    bool   // preflight violators
+	AdmissionFlip bool   // admission may start (and stop) refusing an object after the sets were created
+	Delegation    bool   // phases with class default (and hosted-cluster when cfg.Hosted)
+	Intruder      string // "", "boundary", "granular"
+	Finalizers    bool   // intruder may put blocking finalizers on managed objects
+	ForceCluster  int    // 0 draw, 1 namespaced, 2 cluster-scoped
+	LateCreate    bool   // some sets are created by user operations during the run
+	NeverReady    bool   // some workloads never become ready / stay stale
+	NoForge       bool   // third parties never forge ownership by one of the generated sets
+	CompletePrev  bool   // every set names all earlier sets as previous (no contested objects)
+	Sliced        int    // 0 inline; 1 move phase objects into hand-made ObjectSlices
+	OldestFirst   bool   // archive/delete operations only hit the oldest set still alive (no re-create race among older revisions)
+	DelegateMask  int    // bit i set: phase i of every set is delegated to class "default" (no choices consumed)
+	NoOrphan      bool   // no orphan-propagation deletes among the lifecycle operations
+	CondMappings  bool   // some listed objects carry conditionMappings (C19)
+	AllLate       bool   // every set but the first is created by its own user operation
+	DriftOnly     bool   // the intruder only edits managed fields, deletes, and blocks deletion (C10)
 }
 
 const (
@@ -271,6 +272,43 @@ func GenOS(w *World, prof OSProfile) *Scenario {
 			case 4:
 				sc.UserOps = append(sc.UserOps, UserOp{Label: "delete --cascade=orphan " + name, Do: func(w *World) { _ = w.TP("user", w.Mgmt).Delete(key, "Orphan") }})
 			}
+		}
+	}
+	if prof.AdmissionFlip && len(specs) > 0 && s.Chance(1, 2, "admission-flip") {
+		// the answer of the server-side dry run is not a function of the spec: a policy that comes into
+		// force later (or a permission that is withdrawn) makes an object unacceptable after a rollout
+		o := specs[s.Intn(len(specs), "flip-set")]
+		if sos := SpecObjects(o, nil); len(sos) > 0 {
+			so := sos[s.Intn(len(sos), "flip-object")]
+			cluster := "mgmt"
+			if so.Class == "hosted-cluster" {
+				cluster = "hosted"
+			}
+			id := cluster + "|" + w.normKey(cluster, so.Key).String()
+			touch := func(w *World, v string) {
+				for _, k := range sortedKeys(w.Mgmt.Objs) {
+					if k.Group == PKOGroup && (isObjectSetKind(k.Kind) || isPhaseKind(k.Kind)) {
+						_, _ = w.TP("user", w.Mgmt).Mutate(k, func(x store.Obj) { setAnnotation(x, "sim.example/touched", v) })
+					}
+				}
+			}
+			ops := []UserOp{{Label: "admission starts refusing " + id, Do: func(w *World) {
+				if w.Denied == nil {
+					w.Denied = map[string]bool{}
+				}
+				w.Denied[id] = true
+				w.DenyFlips = append(w.DenyFlips, w.C.Seq)
+				touch(w, "deny")
+			}}}
+			if s.Bool("flip-back") {
+				ops = append(ops, UserOp{Label: "admission accepts " + id + " again", Do: func(w *World) {
+					delete(w.Denied, id)
+					w.DenyFlips = append(w.DenyFlips, w.C.Seq)
+					touch(w, "allow")
+				}})
+			}
+			at := s.Intn(len(sc.UserOps)+1, "flip-at")
+			sc.UserOps = append(sc.UserOps[:at], append(ops, sc.UserOps[at:]...)...)
 		}
 	}
 	// intruder targets: every listed object, on the cluster its phase is realised in
